@@ -71,6 +71,7 @@ def run(ctx):
     rule_xfr(ctx, F)
     rule_xfr_first(ctx, F)
     rule_raise(ctx, F)
+    rule_wrguard(ctx, F)
 
 
 def _has_fact(facts, pred):
@@ -860,3 +861,36 @@ def rule_drain(ctx, F):
            "Transport::run reports the reader's end with error(..) without first draining the reply channel (try_recv -> "
            "demux_reply): a response that was read completely just before the EOF / read error is dropped and its request "
            "completes with the stream error instead")
+
+
+def rule_wrguard(ctx, F):
+    """One outgoing slot: while a request is partly written (`do_write`), the stream transport takes no further request
+    from its queue -- the next one would overwrite the slot and the peer would get the head of one frame and the tail
+    of another.  In the `select!` of Transport::run that is the precondition `if !do_write` of the receiving arm: among
+    the stores that disable an arm (`disabled |= 1 << k`), one is made under `do_write == true` (and the write arm's
+    under `do_write == false`)."""
+    R = "C15.wrguard"
+    ctx.floor(R, 1)
+    b = F.one_body(r"^net::client::stream::Transport::<.*>::run::\{closure#0\}$")
+    if not ctx.anchor(R, "Transport::run (stream)", b):
+        return
+    dis = [pl[0] for n, pl in b.vars if n == "disabled" and len(pl) == 1]
+    dw = [pl[0] for n, pl in b.vars if n == "do_write" and len(pl) == 1]
+    if not ctx.anchor(R, "select! mask `disabled` and the flag `do_write` in Transport::run", bool(dis) and bool(dw), b.where()):
+        return
+    dwt = {str(deep_strip(b.term_of_local(l))) for l in dw}
+    under = {True: 0, False: 0}
+    stores = 0
+    for bi in sorted(b.reachable_blocks()):
+        for st in b.blocks[bi]["s"]:
+            if st[0] == "=" and len(st[1]) == 1 and st[1][0] in dis and st[2][0] == "bin" and st[2][1] == "BitOr":
+                stores += 1
+                fa = facts_at(b, bi, F)
+                if fa:
+                    tm, v, _e = fa[-1]
+                    if str(deep_strip(tm)) in dwt and isinstance(v, bool):
+                        under[v] += 1
+    ctx.ob(R, b, "an arm of the select is switched off while a request is being written", stores >= 2 and under[True] >= 1,
+           "no arm of Transport::run's select! is disabled under do_write == true (%d precondition stores, %d under do_write, %d under "
+           "!do_write): a request taken from the queue while the previous one is half written replaces it in the single outgoing "
+           "slot, and the peer reads a frame made of two requests" % (stores, under[True], under[False]), b.where())
